@@ -1,6 +1,7 @@
 import FsnVerif.Generated.Tables
 import FsnVerif.Model.Bits
 import FsnVerif.Proofs.BitsLemmas
+import FsnVerif.Proofs.BridgeEventOp
 /-!
 # Tie T (tables): regenerated definitions = hand-written table-form model
 
@@ -11,19 +12,6 @@ of them (or the residue/shape equalities) at build time.
 -/
 namespace Bridge
 open Fsn
-
-theorem opConsts_eq :
-    Gen.allOpConsts = [("Chmod", Chmod), ("Create", Create), ("Remove", Remove), ("Rename", Rename),
-      ("Write", Write), ("xUnportableCloseRead", CloseRead), ("xUnportableCloseWrite", CloseWrite),
-      ("xUnportableOpen", Open), ("xUnportableRead", Read)] := rfl
-
-theorem opHas_eq (o h : BitVec 32) : Gen.opHas o h = Fsn.opHas o h := rfl
-theorem opHas_residue : Gen.opHas.residue = [] := rfl
-
-theorem inotifyNewEventOp_eq (m : BitVec 32) : Gen.inotifyNewEventOp m = Fsn.inotifyNewEventOp m := by
-  simp only [Gen.inotifyNewEventOp, Fsn.inotifyNewEventOp, applyRules, inotifyRules, List.foldl, List.any, test,
-    Bool.or_false]
-  rfl
 
 theorem inotifyRequest_eq (nf : Bool) (ops : BitVec 32) : Gen.inotifyRequest nf ops = Fsn.inotifyRequest nf ops := by
   have h : Gen.inotifyRequest nf ops = inotifyRequestRules.foldl
